@@ -40,6 +40,28 @@ xlog(const char *fmt, ...)
 	}
 }
 
+static void
+xlog_arg(const char *a)
+{
+/* [arg] with control characters, '%' and ']' as %xx */
+	char buf[8192];
+	size_t n = 0;
+
+	buf[n++] = ' ';
+	buf[n++] = '[';
+	for (; *a && n < sizeof(buf) - 8; a++) {
+		unsigned char c = (unsigned char)*a;
+		if (c < 0x20 || c == '%' || c == ']' || c >= 0x7f) {
+			n += sprintf(buf + n, "%%%02x", c);
+		} else {
+			buf[n++] = (char)c;
+		}
+	}
+	buf[n++] = ']';
+	buf[n] = '\0';
+	xlog("%s", buf);
+}
+
 int
 posix_spawn(pid_t *pid, const char *path, const posix_spawn_file_actions_t *fa,
 	    const posix_spawnattr_t *attr, char *const argv[], char *const envp[])
@@ -55,7 +77,7 @@ posix_spawn(pid_t *pid, const char *path, const posix_spawn_file_actions_t *fa,
 		const char *r = getenv("HX_SENDMAIL");
 		xlog("MAILER");
 		for (char *const *a = argv; a && *a; a++) {
-			xlog(" [%s]", *a);
+			xlog_arg(*a);
 		}
 		xlog("\n");
 		if (r != NULL) {
@@ -66,7 +88,7 @@ posix_spawn(pid_t *pid, const char *path, const posix_spawn_file_actions_t *fa,
 	} else {
 		xlog("SPAWN %s", path);
 		for (char *const *a = argv; a && *a; a++) {
-			xlog(" [%s]", *a);
+			xlog_arg(*a);
 		}
 		xlog("\n");
 	}
